@@ -131,6 +131,8 @@ func withReader(t *rapid.T, c harness.Case) harness.Case {
 func plan() harness.Plan {
 		return harness.Plan{Prop: "C16", Suppress: findings.Suppressor("C16"), Checks: []harness.Check{
 		{Name: "reparse", Quick: 100000, Thorough: 1500000, Gen: func(t *rapid.T) harness.Case { return withReader(t, harness.Case{In: gen.Doc().Draw(t, "in")}) }, Prop: prop, Rule: rule},
+		{Name: "reparse_accumulating", Quick: 250, Thorough: 6000, Gen: func(t *rapid.T) harness.Case { return withReader(t, harness.Case{In: gen.AccumDoc().Draw(t, "in")}) }, Prop: prop, Rule: "documents of 40-450 small root blocks (gen.AccumDoc): hundreds of blocks that leave one kind of inline opener open (brackets, backtick runs, delimiter runs, unfinished tags, comments, destinations), then blocks with complete constructs of every kind; whatever the parser remembers from earlier root blocks must not change a later one: " + rule},
+		{Name: "reparse_documents", Quick: 60, Thorough: 1500, Gen: func(t *rapid.T) harness.Case { return withReader(t, harness.Case{In: gen.LongDoc(12000, 50000).Draw(t, "in")}) }, Prop: prop, Rule: "documents of 12-50 KB with hundreds of root blocks (gen.LongDoc, half of them with NULs): " + rule},
 		{Name: "reparse_lines", Quick: 50000, Thorough: 700000, Gen: func(t *rapid.T) harness.Case { return withReader(t, harness.Case{In: gen.Lines().Draw(t, "in")}) }, Prop: prop, Rule: "G2 only: " + rule},
 	}}
 }
